@@ -1,7 +1,685 @@
-//! C10 — not implemented yet (see DESIGN.md section 4).
-use kit::Run;
-use serde_json::Value;
+//! C10 — untrusted input never crashes, hangs or exhausts memory: the bounded NEIGHBOURHOOD statement (DESIGN.md C10 / section 5).
+//!
+//! S-inp. Seeds: every kit asset unsigned and signed, a detached manifest store (.c2pa), a builder archive, and the
+//! repository's regression inputs (riff_bomb_1000.wav, nested_moov_1000.mp4, id3v23_compression_underflow.mp3,
+//! tiff_poc.tiff, bad_path_archive.zip). Alphabet per seed (one deviation from the seed per input):
+//!   * byte edits: every byte position (quick: the first 600) x {00,01,7F,80,FF,b+1,b-1}; thorough: x all 255 other values on the
+//!     4 smallest seeds;
+//!   * truncations: every shorter length (quick: every length <= 600, every 8th beyond, and the last 16);
+//!   * length-like fields: every 4/8-byte big- or little-endian window whose value is a plausible in-file length, every 2-byte
+//!     big-endian window introduced by a JPEG marker, a 2-byte CBOR head (59/79/99/B9) or DER 0x82 (thorough: every plausible
+//!     2-byte window of either endianness in seeds <= 16 KiB), each set to {0,1,2,7,8,9,16,v-1,v+1,2^(8w-1)-1,2^(8w-1),2^(8w)-1} and for wide fields 2^31-1, 2^32-1, 2^32, 2^63.
+//! Every input is given to Reader::with_stream, Builder::add_ingredient_from_stream and jumbf_io::load_jumbf_from_memory under the
+//! seed's own format hint and 3 wrong hints (rotating through all other formats with the mutation index), and to Builder::with_archive.
+//!
+//! Monitors: every call runs in a WORKER SUBPROCESS (re-exec, VERIF_C10_WORKER) on a thread with the default 2 MiB stack, RLIMIT_AS 4 GiB;
+//! `par::guard` (panic, with the panic location taken from a panic hook); thread CPU time per call <= 2 s; peak RSS growth (the kernel's
+//! hiwater_rss = VmHWM of /proc/self/status, reset through /proc/self/clear_refs whenever it moves) <= max(64 MiB, 32 x input) + 32 MiB (the default
+//! `core.max_decompressed_manifest_size_in_mb`); a dead or hung worker is attributed to the exact (input, entry point, hint) through a
+//! progress file written before each call.
+//!
+//! Mutants caught (tools/mutant_run.sh I <diff> C10 quick):
+//!   /verif/mutants/C10-jumd-min-size-unchecked.diff (the JUMD_MIN_SIZE guard of BoxReader::read_desc_box removed: subtraction overflow panic)
 
-pub fn run(_run: &Run, _replay: Option<&Value>) {
-    kit::ev::machinery("C10: check not implemented");
+use c2pa::{Builder, Reader};
+use kit::{assets, par, sdk, workers, Run};
+use serde_json::{json, Value};
+use std::{collections::BTreeMap, io::Cursor, path::Path, sync::Mutex};
+
+const ENV: &str = "VERIF_C10_WORKER";
+const CPU_BUDGET_US: u64 = 2_000_000;
+const DECOMPRESSION_LIMIT: u64 = 32 << 20;
+
+const FORMATS: [&str; 15] = [
+    "image/jpeg", "image/png", "image/gif", "audio/wav", "image/webp", "video/avi", "image/tiff", "image/svg+xml", "audio/mpeg", "audio/flac",
+    "image/jxl", "video/mp4", "image/heic", "application/c2pa", "application/pdf",
+];
+
+#[derive(Clone, Debug)]
+struct Seed {
+    name: String,
+    mime: String,
+    data: Vec<u8>,
+}
+
+#[derive(Clone, Copy, Debug, PartialEq)]
+enum Mutation {
+    Identity,
+    Byte { pos: u32, val: u8 },
+    Trunc { len: u32 },
+    Field { off: u32, width: u8, be: bool, val: u64 },
+}
+
+impl Mutation {
+    fn apply(&self, d: &[u8]) -> Vec<u8> {
+        match *self {
+            Mutation::Identity => d.to_vec(),
+            Mutation::Byte { pos, val } => {
+                let mut v = d.to_vec();
+                v[pos as usize] = val;
+                v
+            }
+            Mutation::Trunc { len } => d[..len as usize].to_vec(),
+            Mutation::Field { off, width, be, val } => {
+                let mut v = d.to_vec();
+                let w = width as usize;
+                let bytes = val.to_be_bytes();
+                let slice = &bytes[8 - w..];
+                for i in 0..w {
+                    v[off as usize + i] = if be { slice[i] } else { slice[w - 1 - i] };
+                }
+                v
+            }
+        }
+    }
+    fn to_json(&self) -> Value {
+        match *self {
+            Mutation::Identity => json!({"m":"identity"}),
+            Mutation::Byte { pos, val } => json!({"m":"byte","pos":pos,"val":val}),
+            Mutation::Trunc { len } => json!({"m":"trunc","len":len}),
+            Mutation::Field { off, width, be, val } => json!({"m":"field","off":off,"width":width,"be":be,"val":val}),
+        }
+    }
+    fn class(&self) -> &'static str {
+        match self {
+            Mutation::Identity => "identity",
+            Mutation::Byte { .. } => "byte",
+            Mutation::Trunc { .. } => "trunc",
+            Mutation::Field { .. } => "field",
+        }
+    }
+}
+
+fn read_uint(d: &[u8], off: usize, w: usize, be: bool) -> u64 {
+    let mut v = 0u64;
+    for i in 0..w {
+        let b = d[off + if be { i } else { w - 1 - i }] as u64;
+        v = v << 8 | b;
+    }
+    v
+}
+
+/// Length-like fields of a seed (see module doc). (offset, width, big-endian, current value)
+fn fields(d: &[u8], thorough: bool) -> Vec<(u32, u8, bool, u64)> {
+    let l = d.len();
+    let mut out = vec![];
+    for off in 0..l {
+        for w in [2usize, 4, 8] {
+            if off + w > l {
+                continue;
+            }
+            for be in [true, false] {
+                let v = read_uint(d, off, w, be);
+                let remaining = (l - off) as u64;
+                let plausible = v >= w as u64 && v <= remaining;
+                if !plausible {
+                    continue;
+                }
+                // quick tier: in seeds larger than 16 KiB only the fields that start in the first 600 bytes
+                if !thorough && l > 16 * 1024 && off >= 600 {
+                    continue;
+                }
+                if w == 2 && (!thorough || l > 16 * 1024) {
+                    let introduced = be
+                        && ((off >= 2 && d[off - 2] == 0xFF && d[off - 1] >= 0xC0)
+                            || (off >= 1 && matches!(d[off - 1], 0x59 | 0x79 | 0x99 | 0xB9 | 0x82)));
+                    if !introduced {
+                        continue;
+                    }
+                }
+                out.push((off as u32, w as u8, be, v));
+            }
+        }
+    }
+    out
+}
+
+fn boundary_values(w: u8, v: u64) -> Vec<u64> {
+    let bits = 8 * w as u32;
+    let max = if bits == 64 { u64::MAX } else { (1u64 << bits) - 1 };
+    let mut c = vec![0, 1, 2, 7, 8, 9, 16, v.wrapping_sub(1) & max, v.wrapping_add(1) & max, max >> 1, (max >> 1) + 1, max];
+    if w >= 4 {
+        c.push((1u64 << 31) - 1);
+        c.push(u32::MAX as u64 & max);
+    }
+    if w == 8 {
+        c.push(1u64 << 63);
+        c.push(1u64 << 32);
+    }
+    c.sort();
+    c.dedup();
+    c.retain(|x| *x != v);
+    c
+}
+
+/// All mutations of a seed, in canonical order. `full_bytes`: every byte x 255 values (thorough, smallest seeds).
+fn mutations(d: &[u8], thorough: bool, full_bytes: bool) -> Vec<Mutation> {
+    let l = d.len();
+    let mut v = vec![Mutation::Identity];
+    let byte_span = if thorough { l } else { l.min(600) };
+    for pos in 0..byte_span {
+        let b = d[pos];
+        let vals: Vec<u8> = if full_bytes {
+            (0..=255u8).filter(|x| *x != b).collect()
+        } else {
+            let mut c = vec![0x00, 0x01, 0x7F, 0x80, 0xFF, b.wrapping_add(1), b.wrapping_sub(1)];
+            c.sort();
+            c.dedup();
+            c.retain(|x| *x != b);
+            c
+        };
+        for val in vals {
+            v.push(Mutation::Byte { pos: pos as u32, val });
+        }
+    }
+    for len in 0..l {
+        if thorough || len <= 600 || len % 8 == 0 || len + 16 >= l {
+            v.push(Mutation::Trunc { len: len as u32 });
+        }
+    }
+    for (off, w, be, cur) in fields(d, thorough) {
+        for val in boundary_values(w, cur) {
+            v.push(Mutation::Field { off, width: w, be, val });
+        }
+    }
+    v
+}
+
+const ENTRIES: [&str; 4] = ["reader", "ingredient", "load_jumbf", "with_archive"];
+
+fn hints_for(seed_mime: &str, m_index: u64, all_wrong: bool) -> Vec<String> {
+    let others: Vec<&'static str> = FORMATS.iter().copied().filter(|f| *f != seed_mime).collect();
+    let mut v: Vec<String> = vec![seed_mime.to_string()];
+    if all_wrong {
+        v.extend(others.iter().map(|s| s.to_string()));
+    } else {
+        for t in 0..3u64 {
+            v.push(others[((m_index * 3 + t) % others.len() as u64) as usize].to_string());
+        }
+    }
+    v
+}
+
+/// One call of one entry point. Returns the result class ("ok", "err:<kind>").
+fn call(entry: &str, hint: &str, input: &[u8]) -> String {
+    let class = |r: c2pa::Result<()>| match r {
+        Ok(()) => "ok".to_string(),
+        Err(e) => format!("err:{}", sdk::err_kind(&e)),
+    };
+    match entry {
+        "reader" => class(Reader::from_context(sdk::ctx()).with_stream(hint, Cursor::new(input)).map(|_| ())),
+        "ingredient" => {
+            let mut b = Builder::from_context(sdk::ctx());
+            class(b.add_ingredient_from_stream(r#"{"title":"i","relationship":"componentOf"}"#, hint, &mut Cursor::new(input)).map(|_| ()))
+        }
+        "load_jumbf" => class(c2pa::jumbf_io::load_jumbf_from_memory(hint, input).map(|_| ())),
+        "with_archive" => class(Builder::from_context(sdk::ctx()).with_archive(Cursor::new(input.to_vec())).map(|_| ())),
+        _ => "err:unknown-entry".into(),
+    }
+}
+
+static LAST_PANIC: Mutex<String> = Mutex::new(String::new());
+
+/// VmHWM (peak RSS, KiB) of this process from /proc/self/status, read through a file kept open.
+struct Hwm {
+    f: std::fs::File,
+}
+impl Hwm {
+    fn open() -> Self {
+        Hwm { f: std::fs::File::open("/proc/self/status").unwrap_or_else(|e| kit::ev::machinery(format!("/proc/self/status: {e}"))) }
+    }
+    fn kib(&self) -> u64 {
+        use std::os::unix::fs::FileExt;
+        let mut buf = [0u8; 4096];
+        let n = self.f.read_at(&mut buf, 0).unwrap_or(0);
+        let s = &buf[..n];
+        let key = b"VmHWM:";
+        if let Some(p) = s.windows(key.len()).position(|w| w == key) {
+            let mut v = 0u64;
+            let mut seen = false;
+            for &b in &s[p + key.len()..] {
+                if b.is_ascii_digit() {
+                    v = v * 10 + (b - b'0') as u64;
+                    seen = true;
+                } else if seen {
+                    break;
+                }
+            }
+            return v;
+        }
+        0
+    }
+}
+
+struct Monitor {
+    hwm: Hwm,
+    mark_kib: u64,
+}
+impl Monitor {
+    fn new() -> Self {
+        workers::reset_peak_rss();
+        let hwm = Hwm::open();
+        let mark_kib = hwm.kib();
+        Monitor { hwm, mark_kib }
+    }
+    /// Peak growth (KiB) since the last mark if the peak moved by more than 4 MiB (then the mark is reset), else 0.
+    fn growth(&mut self) -> u64 {
+        let m = self.hwm.kib();
+        if m > self.mark_kib + 4096 {
+            let g = m - self.mark_kib;
+            workers::reset_peak_rss();
+            self.mark_kib = self.hwm.kib();
+            g
+        } else {
+            0
+        }
+    }
+}
+
+#[derive(Default)]
+struct Counters {
+    evals: u64,
+    inputs: u64,
+    nontrivial: u64,
+    outcomes: BTreeMap<String, u64>,
+    max_cpu_us: u64,
+    max_growth_kib: u64,
+    suppressed: u64,
+    per_key: BTreeMap<String, u64>,
+}
+impl Counters {
+    fn take(&mut self) -> Value {
+        let v = json!({"evals": self.evals, "inputs": self.inputs, "nontrivial": self.nontrivial, "outcomes": self.outcomes,
+            "max_cpu_us": self.max_cpu_us, "max_growth_kib": self.max_growth_kib, "suppressed": self.suppressed});
+        let keep = std::mem::take(&mut self.per_key);
+        *self = Counters::default();
+        self.per_key = keep;
+        v
+    }
+}
+
+struct Corpus {
+    seeds: Vec<Seed>,
+    thorough: bool,
+    /// per seed: use the 255-value alphabet
+    full: Vec<bool>,
+    /// replay: only this (entry, hint)
+    only: Option<(String, String, String)>,
+    muts: Vec<Vec<Mutation>>,
+    starts: Vec<u64>,
+}
+
+impl Corpus {
+    fn load(dir: &Path) -> Corpus {
+        let idx: Value = serde_json::from_slice(&std::fs::read(dir.join("corpus.json")).unwrap_or_else(|e| kit::ev::machinery(format!("corpus.json: {e}"))))
+            .unwrap_or_else(|e| kit::ev::machinery(format!("corpus.json: {e}")));
+        let thorough = idx["thorough"].as_bool().unwrap_or(false);
+        let identity_only = idx["identity_only"].as_bool().unwrap_or(false);
+        let mut seeds = vec![];
+        let mut full = vec![];
+        for s in idx["seeds"].as_array().cloned().unwrap_or_default() {
+            let file = s["file"].as_str().unwrap_or("");
+            let data = std::fs::read(dir.join(file)).unwrap_or_else(|e| kit::ev::machinery(format!("seed file {file}: {e}")));
+            seeds.push(Seed { name: s["name"].as_str().unwrap_or("").to_string(), mime: s["mime"].as_str().unwrap_or("").to_string(), data });
+            full.push(s["full"].as_bool().unwrap_or(false));
+        }
+        let only = idx["only"].as_object().map(|o| {
+            (o["entry"].as_str().unwrap_or("").to_string(), o["hint"].as_str().unwrap_or("").to_string(), o["class"].as_str().unwrap_or("identity").to_string())
+        });
+        let muts: Vec<Vec<Mutation>> =
+            seeds.iter().zip(&full).map(|(s, f)| if identity_only { vec![Mutation::Identity] } else { mutations(&s.data, thorough, *f) }).collect();
+        let mut starts = vec![];
+        let mut acc = 0u64;
+        for m in &muts {
+            starts.push(acc);
+            acc += m.len() as u64;
+        }
+        starts.push(acc);
+        Corpus { seeds, thorough, full, only, muts, starts }
+    }
+    fn total(&self) -> u64 {
+        *self.starts.last().unwrap_or(&0)
+    }
+    fn locate(&self, idx: u64) -> (usize, usize) {
+        let s = match self.starts.binary_search(&idx) {
+            Ok(i) => {
+                // first seed whose start == idx and that is non-empty
+                let mut i = i;
+                while i + 1 < self.starts.len() && self.starts[i + 1] == idx {
+                    i += 1;
+                }
+                i
+            }
+            Err(i) => i - 1,
+        };
+        (s, (idx - self.starts[s]) as usize)
+    }
+    /// The (entry, hint) pairs exercised for input (seed s, mutation m).
+    fn subcases(&self, s: usize, m: usize) -> Vec<(&'static str, String)> {
+        if let Some((e, h, _)) = &self.only {
+            let e = ENTRIES.iter().find(|x| **x == e.as_str()).copied().unwrap_or("reader");
+            return vec![(e, h.clone())];
+        }
+        let hints = hints_for(&self.seeds[s].mime, m as u64, false);
+        let mut v = vec![];
+        for e in ["reader", "ingredient", "load_jumbf"] {
+            for (hi, h) in hints.iter().enumerate() {
+                // quick tier: add_ingredient_from_stream gets the own hint and one wrong hint
+                if e == "ingredient" && !self.thorough && hi >= 2 {
+                    continue;
+                }
+                v.push((e, h.clone()));
+            }
+        }
+        v.push(("with_archive", String::new()));
+        v
+    }
+}
+
+fn hex_if_small(d: &[u8]) -> Value {
+    json!(kit::ev::hex(d))
+}
+
+fn worker(spec: &workers::WorkerSpec) -> ! {
+    workers::limit_address_space(4 << 30);
+    std::panic::set_hook(Box::new(|info| {
+        let loc = info.location().map(|l| format!("{}:{}", l.file().rsplit("/sdk/").next().unwrap_or(l.file()), l.line())).unwrap_or_default();
+        *LAST_PANIC.lock().unwrap_or_else(|e| e.into_inner()) = loc;
+    }));
+    let spec = spec.clone();
+    // default 2 MiB stack: what an application thread offers
+    let h = std::thread::Builder::new()
+        .name("c10-worker".into())
+        .spawn(move || {
+            let corpus = Corpus::load(&spec.dir);
+            let counters = std::cell::RefCell::new(Counters::default());
+            let monitor = std::cell::RefCell::new(Monitor::new());
+            workers::worker_loop(
+                &spec,
+                4000,
+                |idx, emit| {
+                    let (s, m) = corpus.locate(idx);
+                    let seed = &corpus.seeds[s];
+                    let mutation = corpus.muts[s][m];
+                    let input = mutation.apply(&seed.data);
+                    let mclass = corpus.only.as_ref().map(|o| o.2.clone()).unwrap_or_else(|| mutation.class().to_string());
+                    let mut c = counters.borrow_mut();
+                    let mut mon = monitor.borrow_mut();
+                    c.inputs += 1;
+                    let mut accepted = false;
+                    for (sub, (entry, hint)) in corpus.subcases(s, m).into_iter().enumerate() {
+                        emit.sub(sub as u64);
+                        let c0 = workers::thread_cpu_us();
+                        let t0 = std::time::Instant::now();
+                        let r = par::guard(|| call(entry, &hint, &input));
+                        let mut cpu = workers::thread_cpu_us() - c0;
+                        let wall = t0.elapsed().as_micros() as u64;
+                        let growth = mon.growth();
+                        c.evals += 1;
+                        c.max_cpu_us = c.max_cpu_us.max(cpu);
+                        c.max_growth_kib = c.max_growth_kib.max(growth);
+                        let mut problems: Vec<(String, String)> = vec![];
+                        let own_hint = hint == seed.mime;
+                        let hint_class = if entry == "with_archive" { "-" } else if own_hint { "own" } else { "wrong" };
+                        match &r {
+                            Err(p) => {
+                                let loc = LAST_PANIC.lock().unwrap_or_else(|e| e.into_inner()).clone();
+                                *c.outcomes.entry(format!("{entry}:panic")).or_insert(0) += 1;
+                                problems.push((format!("panic at={loc} entry={entry}"), format!("panic at {loc}: {p}")));
+                            }
+                            Ok(class) => {
+                                if class == "ok" && entry == "reader" && !matches!(mutation, Mutation::Identity) {
+                                    accepted = true;
+                                }
+                                *c.outcomes.entry(format!("{entry}/{hint_class}:{class}")).or_insert(0) += 1;
+                            }
+                        }
+                        if cpu > CPU_BUDGET_US {
+                            // confirm: a slow case must be slow again (the box is shared)
+                            let c1 = workers::thread_cpu_us();
+                            let _ = par::guard(|| call(entry, &hint, &input));
+                            cpu = cpu.min(workers::thread_cpu_us() - c1);
+                            let _ = mon.growth();
+                            if cpu > CPU_BUDGET_US {
+                                problems.push((
+                                    format!("slow entry={entry} format={} mutation={mclass}", seed.mime),
+                                    format!("{} ms of thread CPU time ({} ms wall) for a {}-byte input", cpu / 1000, wall / 1000, input.len()),
+                                ));
+                            }
+                        }
+                        let bound_kib = (64u64 << 10).max(32 * input.len() as u64 / 1024) + DECOMPRESSION_LIMIT / 1024;
+                        if growth > bound_kib {
+                            problems.push((
+                                format!("memory entry={entry} format={} mutation={mclass}", seed.mime),
+                                format!("peak RSS grew by {} MiB for a {}-byte input (bound {} MiB)", growth >> 10, input.len(), bound_kib >> 10),
+                            ));
+                        }
+                        for (key, what) in problems {
+                            let n = c.per_key.entry(key.clone()).or_insert(0);
+                            *n += 1;
+                            if *n <= 3 {
+                                emit.line(json!({"violation": {"key": key, "what": format!("{what} [seed {} {:?}, hint {hint}]", seed.name, mutation),
+                                    "case": {"seed": seed.name, "seed_mime": seed.mime, "mutation": mutation.to_json(), "entry": entry, "hint": hint, "input_hex": hex_if_small(&input)}}}));
+                            } else {
+                                c.suppressed += 1;
+                            }
+                        }
+                    }
+                    if accepted {
+                        c.nontrivial += 1;
+                    }
+                    let _ = corpus.thorough;
+                    let _ = &corpus.full;
+                },
+                || counters.borrow_mut().take(),
+            );
+        })
+        .unwrap_or_else(|e| kit::ev::machinery(format!("spawn worker thread: {e}")));
+    let _ = h.join();
+    // the worker thread exits the process itself; reaching this point means it died by panic in harness code
+    std::process::exit(101);
+}
+
+fn write_corpus(dir: &Path, seeds: &[Seed], full: &[bool], thorough: bool, only: Option<(&str, &str, &str)>, identity_only: bool) {
+    let mut list = vec![];
+    for (i, s) in seeds.iter().enumerate() {
+        let file = format!("seed-{i}.bin");
+        std::fs::write(dir.join(&file), &s.data).unwrap_or_else(|e| kit::ev::machinery(format!("write seed: {e}")));
+        list.push(json!({"name": s.name, "mime": s.mime, "file": file, "full": full[i]}));
+    }
+    let mut idx = json!({"thorough": thorough, "seeds": list, "identity_only": identity_only});
+    if let Some((e, h, c)) = only {
+        idx["only"] = json!({"entry": e, "hint": h, "class": c});
+    }
+    std::fs::write(dir.join("corpus.json"), serde_json::to_vec(&idx).unwrap()).unwrap_or_else(|e| kit::ev::machinery(format!("write corpus: {e}")));
+}
+
+fn build_seeds() -> Vec<Seed> {
+    let signer = sdk::fixture_signer("ed25519");
+    let mut v = vec![];
+    for a in assets::all() {
+        v.push(Seed { name: format!("{}", a.name), mime: a.mime.to_string(), data: a.data.clone() });
+        let signed = sdk::sign_simple(signer.as_ref(), a.mime, &a.data, &[]);
+        v.push(Seed { name: format!("{}+signed", a.name), mime: a.mime.to_string(), data: signed });
+    }
+    // detached store
+    {
+        let a = assets::by_name("jpeg");
+        let mut b = sdk::builder(sdk::ctx(), r#"{"title":"t","claim_generator_info":[{"name":"kit","version":"1"}]}"#);
+        b.set_no_embed(true);
+        let (_, store) = sdk::sign(&mut b, signer.as_ref(), a.mime, &a.data).unwrap_or_else(|e| kit::ev::machinery(format!("C10 seed sidecar: {e:?}")));
+        v.push(Seed { name: "sidecar.c2pa".into(), mime: "application/c2pa".into(), data: store });
+    }
+    // builder archive (with one signed ingredient inside)
+    {
+        let a = assets::by_name("png");
+        let inner = sdk::sign_simple(signer.as_ref(), a.mime, &a.data, &[]);
+        let mut b = Builder::from_context(sdk::ctx())
+            .with_definition(r#"{"title":"arch","claim_generator_info":[{"name":"kit","version":"1"}],"assertions":[{"label":"org.verif.x","data":{"k":"v"}}]}"#)
+            .unwrap_or_else(|e| kit::ev::machinery(format!("C10 seed archive definition: {e:?}")));
+        b.set_intent(c2pa::BuilderIntent::Create(c2pa::DigitalSourceType::Empty));
+        b.add_ingredient_from_stream(r#"{"title":"i","relationship":"componentOf"}"#, a.mime, &mut Cursor::new(&inner))
+            .unwrap_or_else(|e| kit::ev::machinery(format!("C10 seed archive ingredient: {e:?}")));
+        let mut out = Cursor::new(Vec::new());
+        b.to_archive(&mut out).unwrap_or_else(|e| kit::ev::machinery(format!("C10 seed archive: {e:?}")));
+        v.push(Seed { name: "builder-archive".into(), mime: "application/c2pa".into(), data: out.into_inner() });
+    }
+    for (file, mime) in [
+        ("riff_bomb_1000.wav", "audio/wav"),
+        ("nested_moov_1000.mp4", "video/mp4"),
+        ("id3v23_compression_underflow.mp3", "audio/mpeg"),
+        ("tiff_poc.tiff", "image/tiff"),
+        ("bad_path_archive.zip", "application/zip"),
+    ] {
+        let data = sdk::fixture(file);
+        if data.is_empty() || data.len() > 100 * 1024 {
+            kit::ev::machinery(format!("C10: regression input {file} is empty or larger than 100 KB ({} bytes)", data.len()));
+        }
+        v.push(Seed { name: file.to_string(), mime: mime.to_string(), data });
+    }
+    v
+}
+
+/// Drive a corpus through the worker pool and record everything in `run`.
+fn drive(run: &Run, dir: &Path, verbose: bool) -> u64 {
+    let corpus = Corpus::load(dir);
+    let total = corpus.total();
+    let cfg = workers::PoolCfg {
+        env: ENV,
+        args: vec!["C10".into(), "--tier".into(), run.tier.name().into()],
+        dir,
+        total,
+        workers: par::workers() as u64,
+        hang_secs: 60,
+        extra_env: vec![],
+    };
+    let mut deaths: Vec<workers::Death> = vec![];
+    let mut max_cpu = 0u64;
+    let mut max_growth = 0u64;
+    let mut suppressed = 0u64;
+    workers::run_pool(
+        &cfg,
+        |line| {
+            if verbose {
+                let mut l = line.clone();
+                if let Some(c) = l.pointer_mut("/violation/case/input_hex") {
+                    *c = json!("...");
+                }
+                println!("  {l}");
+            }
+            if let Some(v) = line.get("violation") {
+                run.violation(v["key"].as_str().unwrap_or("?"), v["what"].as_str().unwrap_or(""), v["case"].clone());
+            }
+        },
+        |d| {
+            run.evals(d["evals"].as_u64().unwrap_or(0));
+            run.nontrivial_n(d["nontrivial"].as_u64().unwrap_or(0));
+            if let Some(m) = d["outcomes"].as_object() {
+                for (k, v) in m {
+                    run.outcome_n(k.clone(), v.as_u64().unwrap_or(0));
+                }
+            }
+            max_cpu = max_cpu.max(d["max_cpu_us"].as_u64().unwrap_or(0));
+            max_growth = max_growth.max(d["max_growth_kib"].as_u64().unwrap_or(0));
+            suppressed += d["suppressed"].as_u64().unwrap_or(0);
+        },
+        |d| deaths.push(d),
+    );
+    run.extra("max_thread_cpu_ms_per_call", json!(max_cpu / 1000));
+    run.extra("max_peak_rss_growth_mib_per_call", json!(max_growth >> 10));
+    run.extra("violating_calls_not_listed_individually", json!(suppressed));
+    for d in deaths {
+        let (s, m) = corpus.locate(d.idx);
+        let seed = &corpus.seeds[s];
+        let mutation = corpus.muts[s][m];
+        let subs = corpus.subcases(s, m);
+        let (entry, hint) = subs.get(d.sub as usize).cloned().unwrap_or(("?", String::new()));
+        let input = mutation.apply(&seed.data);
+        let mclass = corpus.only.as_ref().map(|o| o.2.clone()).unwrap_or_else(|| mutation.class().to_string());
+        let kind = if d.how.starts_with("hang") { "hang" } else { "worker-death" };
+        run.eval();
+        run.outcome(format!("{entry}:{kind}"));
+        run.violation(
+            format!("{kind} how={} entry={entry} format={} mutation={mclass}", d.how.split(" (").next().unwrap_or(""), seed.mime),
+            format!("{entry}(hint {hint}) on seed {} with {:?} ended the worker: {}", seed.name, mutation, d.how),
+            json!({"seed": seed.name, "seed_mime": seed.mime, "mutation": mutation.to_json(), "entry": entry, "hint": hint, "input_hex": hex_if_small(&input)}),
+        );
+    }
+    total
+}
+
+pub fn run(run: &Run, replay: Option<&Value>) {
+    if let Some(spec) = workers::worker_spec(ENV) {
+        worker(&spec);
+    }
+    run.rule(
+        "seeds = 19 kit assets unsigned + signed, one detached store, one builder archive, 5 repository regression inputs; per seed: identity, byte edits (quick: first 600 positions x \
+         {00,01,7F,80,FF,+1,-1}; thorough: every position, and x255 values on the 4 smallest seeds), truncations (quick: lengths <=600, every 8th, last 16; thorough: every length), \
+         length-like fields x boundary values (see module doc). Each input goes to Reader::with_stream, Builder::add_ingredient_from_stream, jumbf_io::load_jumbf_from_memory under the seed's \
+         own hint and 3 wrong hints rotating over the 14 other formats (quick: add_ingredient_from_stream own + 1 wrong hint), and to Builder::with_archive (11 quick / 13 thorough calls per input). Quick: in seeds > 16 KiB only length-like fields starting in the first 600 bytes. evaluations = calls. non-trivial = distinct mutated inputs that \
+         Reader::with_stream (a manifest store was found and parsed) still returned Ok for under some hint.",
+    );
+    run.assume("neighbourhood statement only: one deviation (byte, truncation, one length-like field) from a seed; arbitrary byte strings and multi-field corruption are outside (DESIGN.md section 5); pairs of length fields are not enumerated");
+    run.assume("time budget = 2 s of THREAD CPU time per call, confirmed by a second execution (wall clock is not used for the verdict because the box is shared); a call that blocks for 60 s wall is killed and reported as a hang");
+    run.assume("memory = growth of the process peak RSS (kernel hiwater_rss) during the call, with 4 MiB resolution; untouched virtual reservations are only caught by RLIMIT_AS = 4 GiB (worker death)");
+    run.assume("calls run on a thread with Rust's default 2 MiB stack");
+
+    // monitor self-test: the RSS monitor must see a 48 MiB touch and must come back after a reset
+    {
+        let mut mon = Monitor::new();
+        let v: Vec<u8> = vec![1u8; 48 << 20];
+        let s: u64 = v.iter().step_by(4096).map(|x| *x as u64).sum();
+        drop(v);
+        let g = mon.growth();
+        let g2 = mon.growth();
+        let v: Vec<u8> = vec![2u8; 48 << 20];
+        let s2: u64 = v.iter().step_by(4096).map(|x| *x as u64).sum();
+        drop(v);
+        let g3 = mon.growth();
+        if s == 0 || s2 == 0 || g < (40 << 10) || g2 != 0 || g3 < (40 << 10) {
+            kit::ev::machinery(format!("C10: RSS monitor self-test failed (growth {g} KiB after touching 48 MiB, {g2} KiB afterwards, {g3} KiB on the second touch)"));
+        }
+    }
+
+    let dir = tempfile::tempdir().unwrap_or_else(|e| kit::ev::machinery(format!("tempdir: {e}")));
+    if let Some(c) = replay {
+        let input = kit::ev::unhex(c["input_hex"].as_str().unwrap_or(""));
+        let seed = Seed { name: format!("replay of {}", c["seed"].as_str().unwrap_or("?")), mime: c["seed_mime"].as_str().unwrap_or("").to_string(), data: input };
+        let entry = c["entry"].as_str().unwrap_or("reader");
+        let hint = c["hint"].as_str().unwrap_or("");
+        println!("replay: {} bytes, entry {entry}, hint {hint}, mutation {}", seed.data.len(), c["mutation"]);
+        write_corpus(dir.path(), &[seed], &[false], false, Some((entry, hint, c["mutation"]["m"].as_str().unwrap_or("identity"))), true);
+        drive(run, dir.path(), true);
+        return;
+    }
+
+    let thorough = run.tier.is_thorough();
+    let seeds = build_seeds();
+    // the 4 smallest seeds get the 255-value alphabet in the thorough tier
+    let mut by_len: Vec<usize> = (0..seeds.len()).collect();
+    by_len.sort_by_key(|i| seeds[*i].data.len());
+    let full: Vec<bool> = (0..seeds.len()).map(|i| thorough && by_len[..4].contains(&i)).collect();
+
+    // baseline: every unmutated seed through every entry point, in workers (a seed that kills a worker is a finding, not machinery)
+    let base_dir = tempfile::tempdir().unwrap_or_else(|e| kit::ev::machinery(format!("tempdir: {e}")));
+    write_corpus(base_dir.path(), &seeds, &full, thorough, None, true);
+    let t0 = std::time::Instant::now();
+    let n = drive(run, base_dir.path(), false);
+    run.space("unmutated seeds (baseline)", n, true);
+    run.extra("baseline_wall_s", json!(t0.elapsed().as_secs_f64()));
+
+    write_corpus(dir.path(), &seeds, &full, thorough, None, false);
+    let corpus = Corpus::load(dir.path());
+    let mut per_class: BTreeMap<&'static str, u64> = BTreeMap::new();
+    for m in corpus.muts.iter().flatten() {
+        *per_class.entry(m.class()).or_insert(0) += 1;
+    }
+    for (k, v) in &per_class {
+        run.space(&format!("inputs: {k} mutations over {} seeds (x11 quick / x13 thorough calls each)", seeds.len()), *v, true);
+    }
+    run.sample(json!({"seeds": seeds.iter().map(|s| json!({"name": s.name, "mime": s.mime, "bytes": s.data.len()})).collect::<Vec<_>>()}));
+    let s0 = &corpus.seeds[1];
+    run.sample(json!({"seed": s0.name, "mutations": corpus.muts[1].len(), "length_like_fields": fields(&s0.data, thorough).len(),
+        "examples": corpus.muts[1].iter().step_by((corpus.muts[1].len() / 5).max(1)).map(|m| m.to_json()).collect::<Vec<_>>()}));
+    drive(run, dir.path(), false);
 }
